@@ -52,7 +52,7 @@ ClassOf(k) == IF P = 0 THEN (IF Kind = "delete" THEN "DeleteObjectTask" ELSE "Pu
               ELSE IF k = Final THEN "CompleteMultipartUploadTask" ELSE "UploadPartTask"
 Size == IF P = 0 THEN 1 ELSE P
 MetaC == [ cfg |-> [R |-> R, S |-> 1, RQ |-> RQ, SQ |-> 1000, IOQ |-> 1000, io_chunk |-> 1,
-                    attempts |-> 3, up_chunks |-> 10, down_chunks |-> 10, chunk |-> 1,
+                    attempts |-> 3, up_chunks |-> 10, down_chunks |-> 10, chunk |-> 1, minp |-> 1, maxp |-> 1000000, maxn |-> 10000,
                     threshold |-> IF P = 0 THEN 2 ELSE 1],
            xs |-> << [kind |-> Kind, size |-> Size, dstk |-> "none", srck |-> "path",
                       hasOld |-> FALSE, nsubs |-> 1, provide |-> FALSE, faultFree |-> (MaxFaults = 0),
